@@ -62,7 +62,16 @@ def build_facts():
     if old != text:
         with open(path, "w") as f:
             f.write(text)
-    return path, hashlib.sha256(text.encode()).hexdigest()[:16]
+    # the regenerated MiniGo programs (syntax trees of selected functions, see lean/Ioc/GoSem.lean)
+    rc, ptext = sh([out, "-progs", REPO], timeout=120)
+    if rc != 0:
+        raise Broken("program translator failed:\n" + ptext[-4000:])
+    ppath = os.path.join(LEAN, "Ioc", "Generated", "Progs.lean")
+    pold = open(ppath).read() if os.path.exists(ppath) else None
+    if pold != ptext:
+        with open(ppath, "w") as f:
+            f.write(ptext)
+    return path, hashlib.sha256((text + ptext).encode()).hexdigest()[:16]
 
 
 def lake_build(targets):
